@@ -19,3 +19,7 @@ func (p *Packet) Unmarshal(dAtA []byte) error {
 func (p *Packet) Size() int {
 	return p.SizeVT()
 }
+
+func (p *Packet) MarshalTo(dAtA []byte) (int, error) {
+	return p.MarshalToVT(dAtA)
+}
